@@ -206,12 +206,15 @@ REG['C13'] = {
     'technique': 'Kani on the civil containers (all years/months symbolic, constant-bound loops with unwinding assertions) + Verus on LunarYear::get_months + execution for lunar/sexagenary lists',
     'level_text': 'Deductive part: a civil year lists 2 half-years, 4 seasons, 12 months that nest correctly; a month lists exactly the dates that exist in it, in order, count == day count (incl. October 1582) for every year and month (Kani); a lunar year lists exactly its 12/13 months in order (Verus, C03 unit). Leaf part (execution): lunar month -> days, lunar/sexagenary day -> 13/12 double-hour slots, sexagenary year -> months, sexagenary month -> days from its Jie day to the day before the next.',
     'level_note': 'lunar/sexagenary day and hour objects (RefCell, f64, name tables) are outside both verifiers: execution only, labelled bounded',
-    'functions': ['SolarYear::get_months/get_seasons/get_half_years', 'SolarHalfYear::get_months/get_seasons', 'SolarSeason::get_months', 'SolarMonth::get_season/get_days', 'LunarYear::get_months', 'LunarMonth::get_days (leaf)', 'LunarDay::get_hours (leaf)', 'SixtyCycleDay::get_hours (leaf)', 'SixtyCycleYear::get_months (leaf)', 'SixtyCycleMonth::get_days (leaf)'],
+    'functions': ['SolarYear::get_months/get_seasons/get_half_years', 'SolarHalfYear::get_months/get_seasons', 'SolarSeason::get_months', 'SolarMonth::get_season/get_days', 'LunarYear::get_months', 'LunarMonth::get_days', 'LunarDay::new', 'LunarHour::new', 'LunarDay::get_hours', 'SixtyCycleDay::get_hours (leaf)', 'SixtyCycleYear::get_months (leaf)', 'SixtyCycleMonth::get_days (leaf)'],
     'K': [
         dict(id='c13_k_year_parts', fn='SolarYear / SolarHalfYear / SolarSeason lists', clause='2/4/12 parts in order, nesting correct'),
         dict(id='c13_k_month_days', fn='SolarMonth::get_days', clause='lists exactly the existing dates of the month in order; count == month length',
              paired_leaf=dict(check='c13_solar', range=(1, 9999), chunks=32)),
         dict(id='c01_k7_lengths', fn='SolarMonth::get_day_count / SolarYear::get_day_count', clause='== calendar spec'),
+        dict(id='c13_k_lunar_day_accept', fn='LunarDay::new', clause='accepted <=> 1 <= day <= day count of the month (month lookup replaced by an arbitrary well-formed month); components stored as given'),
+        dict(id='c13_k_lunar_hour_accept', fn='LunarHour::new', clause='accepted <=> hour <= 23, minute <= 59, second <= 59; built on the same (year, month, day)'),
+        dict(id='c13_k_lunar_day_hours', fn='LunarDay::get_hours', clause='asks for exactly the 13 slots 0:00, 1:00, 3:00, ..., 23:00 of its own day, in order (constructor replaced by a recording stub)'),
     ],
     'V': [
         dict(id='c03_month_step', template='verus/c03_month_step.rs', clause='LunarYear::get_months lists exactly ordinals mb(y)..mb(y)+msize(y)-1 in order; LunarMonth::get_days lists exactly days 1..day_count of the month in order'),
@@ -322,8 +325,8 @@ REG['C15'] = {
 REG['C16'] = {
     'level': 'proof',
     'design_ref': '5/C16',
-    'technique': 'Verus on DefaultChildLimitProvider::get_info unit conversion and AbstractChildLimitProvider::next (day-overflow loop) extracted verbatim; seeded execution of ChildLimit / fortunes for all four strategies',
-    'level_text': 'Deductive part (Verus, real code): seconds -> (years, months, days, hours, minutes) at 3 d = 1 y, 1 d = 4 mo, 1 h = 5 d, 1 min = 2 h, 1 s = 2 min exactly (259200*Y + 21600*M + 720*D + 30*H + Mi/2 == seconds, field ranges); the calendar addition carries seconds->minutes->hours->days and overflows days month by month, terminating with a day inside the month. Leaf part (bounded, seeded): direction rule, governing Jie, end == birth + units, never before birth / at most 11 years, decade and yearly fortunes, the three other shipped strategies.',
+    'technique': 'Verus on the unit conversion of all three shipped get_info bodies (Default, China95, LunarSect2) and AbstractChildLimitProvider::next (day-overflow loop) extracted verbatim; seeded execution of ChildLimit / fortunes for all four strategies',
+    'level_text': 'Deductive part (Verus, real code): seconds -> (years, months, days, hours, minutes) at 3 d = 1 y, 1 d = 4 mo, 1 h = 5 d, 1 min = 2 h, 1 s = 2 min exactly (259200*Y + 21600*M + 720*D + 30*H + Mi/2 == seconds, field ranges), the minute-based forms of China95 (4320*Y + 360*M + 12*D <= minutes < +12) and LunarSect2 (4320*Y + 360*M + 12*D + H/2 == minutes); the calendar addition carries seconds->minutes->hours->days and overflows days month by month, terminating with a day inside the month. Leaf part (bounded, seeded): direction rule, governing Jie, end == birth + units, never before birth / at most 11 years, decade and yearly fortunes, the three other shipped strategies.',
     'level_note': 'ChildLimit::from_solar_time touches the provider mutex, f64 term instants and name-table pillars: executed on 7 births x 2 genders per year (seed-rotated), not proved; callee contracts: SolarMonth::next/get_day_count (C11/C01), SolarTime::subtract (C12)',
     'functions': ['DefaultChildLimitProvider::get_info', 'China95ChildLimitProvider::get_info', 'LunarSect2ChildLimitProvider::get_info', 'AbstractChildLimitProvider::next', 'ChildLimit::from_solar_time (leaf)', 'DecadeFortune::* / Fortune::* (leaf)'],
     'V': [
